@@ -9,6 +9,7 @@ CONSTANTS
  DelayBeforeStart = FALSE
  CancelInPlace = TRUE
  ForgetDiscarded = TRUE
+ DropLateBoxes = FALSE
  Record = FALSE
 INVARIANT WaitingOK
 CHECK_DEADLOCK FALSE
